@@ -74,6 +74,26 @@ check(
     "DESIGN.md §4 C12",
 )
 
+check(
+    "C10", "exploration",
+    "Hypothesis-generated mixtures of Dependent / Literal / plain-class methods and corpus calls; outcome compared "
+    "with the reference model restricted to methods whose condition holds, predicates log the values they are "
+    "asked about (bound guard). Unspecified order comparisons are skipped (counted) with weaker facts still asserted. "
+    "One recorded known finding (F20: a non-holding dependent method shields what it dominates).",
+    "Trusts vlib/spec.py + vlib/model.py; predicates total on their bound by construction.",
+    "property-based differential testing against a reference model with condition-filtered applicability",
+    "DESIGN.md §4 C10",
+)
+check(
+    "C13", "exploration",
+    "Hypothesis-generated nested static types x corpus classes, applicability observed three ways (dispatch, "
+    "subclasscheck, isinstance) against the hand-written documented meaning; Deferred against not-yet-imported "
+    "scratch modules; exhaustive pair/triple tables for the subclasscheck laws over a fixed universe.",
+    "Trusts vlib/spec.accepts_type; Exactly/StrictSubclass excluded from transitivity (non-monotone by meaning).",
+    "property-based testing against documented type semantics + exhaustive law tables",
+    "DESIGN.md §4 C13",
+)
+
 ALL = [f"C{i:02d}" for i in range(1, 21)]
 REASON_PENDING = "check not built yet in this revision of /verif (work in progress; see DESIGN.md §8)"
 
